@@ -245,14 +245,18 @@ def generate_code(lean_dir: str):
             names = [t.comparators[0].value]
         else:
             raise P.Untranslatable("get_font: subtype test outside the subset")
-        cls = None
+        # every `font = <constructor>(...)` of the branch, however deeply nested in guards of the branch
+        made = []
         for st in node.body:
-            if isinstance(st, ast.Assign) and isinstance(st.targets[0], ast.Name) and st.targets[0].id == "font" \
-                    and isinstance(st.value, ast.Call):
-                f = st.value.func
-                cls = f.id if isinstance(f, ast.Name) else "<recursive:" + getattr(f, "attr", "?") + ">"
-        if cls is None:
+            for sub in ast.walk(st):
+                if isinstance(sub, ast.Assign) and isinstance(sub.targets[0], ast.Name) and sub.targets[0].id == "font" \
+                        and isinstance(sub.value, ast.Call):
+                    f = sub.value.func
+                    made.append(f.id if isinstance(f, ast.Name) else "recursive:" + getattr(f, "attr", "?"))
+        if not made:
             raise P.Untranslatable("get_font: branch does not construct a font")
+        made = sorted(set(made))
+        cls = made[0] if len(made) == 1 and not made[0].startswith("recursive:") else "<" + "|".join(made) + ">"
         rows.append((names, cls))
         if len(node.orelse) == 1 and isinstance(node.orelse[0], ast.If) and isinstance(node.orelse[0].test, ast.Compare):
             node = node.orelse[0]
